@@ -23,7 +23,7 @@ def sh(cmd, **k):
 
 def run_demo(demo, pid):
     src = open(demo).read().replace('/tmp/seed/%s' % pid, WT)
-    tmp = '/tmp/evalseed_demo.py'
+    tmp = '/tmp/evalseed_demo_%d.py' % os.getpid()
     open(tmp, 'w').write(src)
     is_pytest = bool(re.search(r'^def test_|^class Test', src, re.M)) and \
         '__main__' not in src
@@ -35,7 +35,7 @@ def run_demo(demo, pid):
 
 
 def baseline():
-    out = '/tmp/evalseed_junit.xml'
+    out = '/tmp/evalseed_junit_%d.xml' % os.getpid()
     sh('cd %s && PYTHONPATH=%s/src %s -m pytest -q -p no:cacheprovider '
        '--timeout=900 --continue-on-collection-errors --junitxml=%s'
        % (WT, WT, PY, out))
